@@ -250,7 +250,7 @@ Lemma cmp_val_toQ op a b x y : toQ a = Some x -> toQ b = Some y -> cmp_val op a 
 Proof.
   destruct a, b; cbn [toQ]; intros Ha Hb; try discriminate; injection Ha as <-; injection Hb as <-;
     try reflexivity.
-  cbn [cmp_val]. f_equal. unfold qcmp, Qltb, Qleb, Qeqb, Z.ltb, Z.leb. rewrite !Qcompare_inject_Z.
+  cbn [cmp_val cmp_scalar]. f_equal. unfold qcmp, Qltb, Qleb, Qeqb, Z.ltb, Z.leb. rewrite !Qcompare_inject_Z.
   destruct op; try reflexivity.
   - rewrite Z.eqb_compare. reflexivity.
   - rewrite Z.eqb_compare. reflexivity.
@@ -275,15 +275,15 @@ Qed.
 Lemma binop_arrQ_mod {A} (f : A -> Q) (l : list A) (k : positive) :
   binop_val Mod (VA (map (fun z => VQ (f z)) l)) (VZ (Zpos k)) =
   Some (VA (map (fun z => VQ (qmod (f z) (inject_Z (Zpos k)))) l)).
-Proof. unfold binop_val. rewrite (map_opt_map_some _ _ (fun z => VQ (qmod (f z) (inject_Z (Zpos k))))); reflexivity. Qed.
+Proof. unfold binop_val. cbn [bc_l]. rewrite (map_opt_map_some _ _ (fun z => VQ (qmod (f z) (inject_Z (Zpos k))))); reflexivity. Qed.
 
 Lemma binop_arrQ_add {A} (f : A -> Q) (l : list A) (k : Z) :
   binop_val Add (VA (map (fun z => VQ (f z)) l)) (VZ k) = Some (VA (map (fun z => VQ (f z + inject_Z k)%Q) l)).
-Proof. unfold binop_val. rewrite (map_opt_map_some _ _ (fun z => VQ (f z + inject_Z k)%Q)); reflexivity. Qed.
+Proof. unfold binop_val. cbn [bc_l]. rewrite (map_opt_map_some _ _ (fun z => VQ (f z + inject_Z k)%Q)); reflexivity. Qed.
 
 Lemma binop_arrQ_sub {A} (f : A -> Q) (l : list A) (k : Z) :
   binop_val Sub (VA (map (fun z => VQ (f z)) l)) (VZ k) = Some (VA (map (fun z => VQ (f z - inject_Z k)%Q) l)).
-Proof. unfold binop_val. rewrite (map_opt_map_some _ _ (fun z => VQ (f z - inject_Z k)%Q)); reflexivity. Qed.
+Proof. unfold binop_val. cbn [bc_l]. rewrite (map_opt_map_some _ _ (fun z => VQ (f z - inject_Z k)%Q)); reflexivity. Qed.
 
 Lemma call_np_any {A} (p : A -> bool) (l : list A) :
   call "np.any" [VA (map (fun z => VB (p z)) l)] = Some (Some (VB (existsb p l))).
@@ -390,16 +390,262 @@ Proof. apply Qeqb_spec. reflexivity. Qed.
 (** int arrays given as [map (fun i => VZ (g i)) l]: array * int, array // int *)
 Lemma binop_arrZ_mul {A} (g : A -> Z) (l : list A) (k : Z) :
   binop_val Mul (VA (map (fun i => VZ (g i)) l)) (VZ k) = Some (VA (map (fun i => VZ (g i * k)) l)).
-Proof. unfold binop_val. rewrite (map_opt_map_some _ _ (fun i => VZ (g i * k))); reflexivity. Qed.
+Proof. unfold binop_val. cbn [bc_l]. rewrite (map_opt_map_some _ _ (fun i => VZ (g i * k))); reflexivity. Qed.
 
 Lemma binop_arrZ_floordiv {A} (g : A -> Z) (l : list A) (k : Z) :
   (k =? 0)%Z = false ->
   binop_val FloorDiv (VA (map (fun i => VZ (g i)) l)) (VZ k) = Some (VA (map (fun i => VZ (g i / k)) l)).
 Proof.
-  intros H. unfold binop_val. rewrite (map_opt_map_some _ _ (fun i => VZ (g i / k))); [reflexivity|].
-  intros i. cbn [arith]. rewrite H. reflexivity.
+  intros H. unfold binop_val. cbn [bc_l]. rewrite (map_opt_map_some _ _ (fun i => VZ (g i / k))); [reflexivity|].
+  intros i. cbn [bc_l arith]. rewrite H. reflexivity.
 Qed.
 
 Lemma nth_val_last' {A} (f : A -> val) (l : list A) (d : A) (n : nat) :
   l <> [] -> List.length l = n -> nth_val (map f l) (n - 1) = Some (f (last l d)).
 Proof. intros H <-. apply nth_val_last, H. Qed.
+
+(** * 2-D float arrays (rows of rationals) *)
+Definition arr2 (rows : list (list Q)) : val := VA (map (fun r => VA (map VQ r)) rows).
+
+Lemma all_scalar_VQ l : all_scalar (map VQ l) = true.
+Proof. unfold all_scalar. induction l; cbn; auto. Qed.
+
+Lemma np_array_VL_VQ l : np_array (VL (map VQ l)) = Some (VA (map VQ l)).
+Proof.
+  unfold np_array.
+  assert (R : rect (VL (map VQ l)) = true).
+  { cbn [rect]. apply andb_true_intro. split.
+    - induction l; cbn; auto.
+    - destruct l as [|x t]; cbn [map]; [reflexivity|]. induction t; cbn; auto. }
+  rewrite R. cbn [to_array]. rewrite (map_opt_map_some _ _ VQ); [reflexivity|]. reflexivity.
+Qed.
+
+Lemma ones_like_arr2 rows :
+  ones_like (arr2 rows) = Some (VA (map (fun r => VA (map (fun _ : Q => VQ 1) r)) rows)).
+Proof.
+  unfold arr2. cbn [ones_like].
+  rewrite (map_opt_map_some _ _ (fun r => VA (map (fun _ : Q => VQ 1) r))); [reflexivity|].
+  intros r. cbn [ones_like]. rewrite (map_opt_map_some _ _ (fun _ : Q => VQ 1)); reflexivity.
+Qed.
+
+Lemma mul_ones_arr2 rows (v : Q) :
+  binop_val Mul (VA (map (fun r => VA (map (fun _ : Q => VQ 1) r)) rows)) (VQ v) =
+  Some (VA (map (fun r => VA (map (fun _ : Q => VQ (1 * v)%Q) r)) rows)).
+Proof.
+  unfold binop_val. cbn [bc_l].
+  rewrite (map_opt_map_some _ _ (fun r => VA (map (fun _ : Q => VQ (1 * v)%Q) r))); [reflexivity|].
+  intros r. cbn [bc_l]. rewrite (map_opt_map_some _ _ (fun _ : Q => VQ (1 * v)%Q)); reflexivity.
+Qed.
+
+Lemma val_eqb_VT2 a b a' b' : val_eqb (VT [a; b]) (VT [a'; b']) = val_eqb a a' && val_eqb b b'.
+Proof. cbn [val_eqb]. rewrite andb_true_r. reflexivity. Qed.
+
+(** * Comprehensions *)
+Lemma comp_list_map f (g : val -> val) vs :
+  (forall v, In v vs -> f v = Some (Some (g v))) -> comp_loop CList f vs = Some (Some (VL (map g vs))).
+Proof.
+  induction vs as [|x t IH]; intros H; [reflexivity|].
+  cbn [comp_loop map]. rewrite (H x (or_introl eq_refl)), IH; [reflexivity|].
+  intros v Hv. apply H. right. exact Hv.
+Qed.
+
+Lemma comp_all_forallb f (p : val -> bool) vs :
+  (forall v, In v vs -> f v = Some (Some (VB (p v)))) -> comp_loop CAll f vs = Some (Some (VB (forallb p vs))).
+Proof.
+  induction vs as [|x t IH]; intros H; [reflexivity|].
+  cbn [comp_loop forallb]. rewrite (H x (or_introl eq_refl)). cbn [truthy].
+  destruct (p x); [|reflexivity]. apply IH. intros v Hv. apply H. right. exact Hv.
+Qed.
+
+Lemma comp_any_existsb f (p : val -> bool) vs :
+  (forall v, In v vs -> f v = Some (Some (VB (p v)))) -> comp_loop CAny f vs = Some (Some (VB (existsb p vs))).
+Proof.
+  induction vs as [|x t IH]; intros H; [reflexivity|].
+  cbn [comp_loop existsb]. rewrite (H x (or_introl eq_refl)). cbn [truthy].
+  destruct (p x); [reflexivity|]. apply IH. intros v Hv. apply H. right. exact Hv.
+Qed.
+
+(** == on shapes (tuples of naturals) *)
+Lemma all_num_vnat l : forallb (fun v => match v with VZ _ | VQ _ => true | _ => false end) (map vnat l) = true.
+Proof. induction l as [|x t IH]; [reflexivity|]. cbn [map forallb]. rewrite IH. reflexivity. Qed.
+
+Lemma tuple_eqb_vnat a : forall b, tuple_eqb (map vnat a) (map vnat b) = Some (Verdict.list_eqb Nat.eqb a b).
+Proof.
+  induction a as [|x a IH]; intros [|y b]; try reflexivity.
+  - change (tuple_eqb (map vnat []) (map vnat (y :: b)))
+      with (if forallb (fun v => match v with VZ _ | VQ _ => true | _ => false end) ([] ++ map vnat (y :: b))
+            then Some false else None).
+    cbn [app]. rewrite all_num_vnat. reflexivity.
+  - change (tuple_eqb (map vnat (x :: a)) (map vnat []))
+      with (if forallb (fun v => match v with VZ _ | VQ _ => true | _ => false end) (map vnat (x :: a) ++ [])
+            then Some false else None).
+    rewrite app_nil_r, all_num_vnat. reflexivity.
+  - cbn [map tuple_eqb Verdict.list_eqb]. rewrite IH. unfold vnat at 1 2. cbn [cmp_scalar].
+    rewrite Zeqb_of_nat. reflexivity.
+Qed.
+
+Lemma cmp_val_shape op a b :
+  cmp_val op (VT (map vnat a)) (VT (map vnat b)) =
+  match op with
+  | CEq => Some (Verdict.list_eqb Nat.eqb a b)
+  | CNe => Some (negb (Verdict.list_eqb Nat.eqb a b))
+  | _ => None
+  end.
+Proof. cbn [cmp_val]. rewrite tuple_eqb_vnat. destruct op; reflexivity. Qed.
+
+(** the same over [map g l] *)
+Lemma comp_list_map' {A} f (g : A -> val) (h : A -> val) (l : list A) :
+  (forall a, In a l -> f (g a) = Some (Some (h a))) -> comp_loop CList f (map g l) = Some (Some (VL (map h l))).
+Proof.
+  induction l as [|x t IH]; intros H; [reflexivity|].
+  cbn [comp_loop map]. rewrite (H x (or_introl eq_refl)), IH; [reflexivity|].
+  intros a Ha. apply H. right. exact Ha.
+Qed.
+
+Lemma comp_all_forallb' {A} f (g : A -> val) (p : A -> bool) (l : list A) :
+  (forall a, In a l -> f (g a) = Some (Some (VB (p a)))) -> comp_loop CAll f (map g l) = Some (Some (VB (forallb p l))).
+Proof.
+  induction l as [|x t IH]; intros H; [reflexivity|].
+  cbn [comp_loop forallb map]. rewrite (H x (or_introl eq_refl)). cbn [truthy].
+  destruct (p x); [|reflexivity]. apply IH. intros a Ha. apply H. right. exact Ha.
+Qed.
+
+Lemma comp_any_existsb' {A} f (g : A -> val) (p : A -> bool) (l : list A) :
+  (forall a, In a l -> f (g a) = Some (Some (VB (p a)))) -> comp_loop CAny f (map g l) = Some (Some (VB (existsb p l))).
+Proof.
+  induction l as [|x t IH]; intros H; [reflexivity|].
+  cbn [comp_loop existsb map]. rewrite (H x (or_introl eq_refl)). cbn [truthy].
+  destruct (p x); [reflexivity|]. apply IH. intros a Ha. apply H. right. exact Ha.
+Qed.
+
+Lemma forallb_map' {A B} (f : B -> bool) (g : A -> B) l : forallb f (map g l) = forallb (fun x => f (g x)) l.
+Proof. induction l; cbn; congruence. Qed.
+
+Lemma existsb_negb_forallb {A} (p : A -> bool) l : existsb (fun x => negb (p x)) l = negb (forallb p l).
+Proof. induction l as [|x t IH]; [reflexivity|]. cbn [existsb forallb]. rewrite IH. destruct (p x); reflexivity. Qed.
+
+Lemma forallb_ext_in {A} (p q : A -> bool) l : (forall x, In x l -> p x = q x) -> forallb p l = forallb q l.
+Proof.
+  induction l as [|x t IH]; intros H; [reflexivity|]. cbn [forallb].
+  rewrite (H x (or_introl eq_refl)), IH; [reflexivity|]. intros y Hy. apply H. right. exact Hy.
+Qed.
+
+Lemma existsb_ext_in {A} (p q : A -> bool) l : (forall x, In x l -> p x = q x) -> existsb p l = existsb q l.
+Proof.
+  induction l as [|x t IH]; intros H; [reflexivity|]. cbn [existsb].
+  rewrite (H x (or_introl eq_refl)), IH; [reflexivity|]. intros y Hy. apply H. right. exact Hy.
+Qed.
+
+Lemma concat_repeat_1 {A} (x : A) n : List.concat (repeat [x] n) = repeat x n.
+Proof. induction n; cbn; congruence. Qed.
+
+Lemma comp_raise_first k f v t : f v = Some None -> comp_loop k f (v :: t) = Some None.
+Proof. intros H. cbn [comp_loop]. rewrite H. reflexivity. Qed.
+
+(** * element-wise and of two bool arrays *)
+Definition and_list (a b : list bool) : list bool := map (fun p => fst p && snd p) (combine a b).
+
+Lemma and_list_map2 {A B} (p : A -> bool) (q : B -> bool) l1 l2 :
+  and_list (map p l1) (map q l2) = map (fun xy => p (fst xy) && q (snd xy)) (combine l1 l2).
+Proof.
+  unfold and_list. revert l2. induction l1 as [|x t IH]; intros [|y u]; try reflexivity.
+  cbn [map combine fst snd]. rewrite IH. reflexivity.
+Qed.
+
+Lemma and_list_map {A} (p q : A -> bool) l : and_list (map p l) (map q l) = map (fun x => p x && q x) l.
+Proof. unfold and_list. induction l as [|x t IH]; [reflexivity|]. cbn [map combine fst snd]. rewrite IH. reflexivity. Qed.
+
+Lemma unB_VB (l : list bool) : unB (map VB l) = Some l.
+Proof. unfold unB. induction l as [|x t IH]; [reflexivity|]. cbn [map map_opt]. cbn in IH. rewrite IH. reflexivity. Qed.
+
+Lemma cmp_bc_VQ op (l : list Q) b y :
+  toQ b = Some y -> cmp_bc op (VA (map VQ l)) b = Some (VA (map VB (map (fun x => qcmp op x y) l))).
+Proof.
+  intros Hb. assert (H := cmp_bc_arrQ op (fun z : Q => z) l b y Hb).
+  rewrite map_map. etransitivity; [|exact H]. reflexivity.
+Qed.
+
+(** * several for clauses; sorted(key=sum) against Model/Trend.v *)
+From Verde Require Import Model.Trend.
+
+Lemma comp_concat_map' {A} f (g : A -> val) (h : A -> list val) (l : list A) :
+  (forall a, In a l -> f (g a) = Some (Some (VL (h a)))) ->
+  comp_loop CConcat f (map g l) = Some (Some (VL (flat_map h l))).
+Proof.
+  induction l as [|x t IH]; intros H; [reflexivity|].
+  cbn [comp_loop map flat_map]. rewrite (H x (or_introl eq_refl)), IH; [reflexivity|].
+  intros a Ha. apply H. right. exact Ha.
+Qed.
+
+Lemma map_flat_map {A B C} (f : B -> C) (g : A -> list B) l :
+  map f (flat_map g l) = flat_map (fun x => map f (g x)) l.
+Proof. induction l as [|x t IH]; [reflexivity|]. cbn [flat_map]. rewrite map_app, IH. reflexivity. Qed.
+
+Lemma flat_map_ext_in {A B} (f g : A -> list B) l : (forall x, In x l -> f x = g x) -> flat_map f l = flat_map g l.
+Proof.
+  induction l as [|x t IH]; intros H; [reflexivity|]. cbn [flat_map].
+  rewrite (H x (or_introl eq_refl)), IH; [reflexivity|]. intros y Hy. apply H. right. exact Hy.
+Qed.
+
+Section SortKeyed.
+Context {A : Type} (k : A -> nat) (pv : A -> val).
+Let F (c : A) : Z * val := (Z.of_nat (k c), pv c).
+
+Lemma insert_key_map x l : insert_key (Z.of_nat (k x)) (pv x) (map F l) = map F (insert_by k x l).
+Proof.
+  induction l as [|y t IH]; [reflexivity|].
+  cbn [map insert_key insert_by]. unfold F at 1. cbn [fst snd].
+  assert (E : (Z.of_nat (k x) <=? Z.of_nat (k y))%Z = (k x <=? k y)%nat).
+  { destruct (Z.leb_spec (Z.of_nat (k x)) (Z.of_nat (k y))), (Nat.leb_spec (k x) (k y)); try reflexivity; lia. }
+  rewrite E. destruct (k x <=? k y)%nat; [reflexivity|]. cbn [map]. rewrite IH. reflexivity.
+Qed.
+
+Lemma sort_keyed_map l : sort_keyed (map F l) = map F (stable_sort k l).
+Proof.
+  induction l as [|x t IH]; [reflexivity|].
+  cbn [map sort_keyed stable_sort]. unfold F at 1. rewrite IH. apply insert_key_map.
+Qed.
+End SortKeyed.
+
+(** * Updating the middle of a list (x[i] op= e in a loop) *)
+Lemma norm_index_mid (a b : list val) (x : val) :
+  norm_index (List.length (a ++ x :: b)%list) (Z.of_nat (List.length a)) = Some (List.length a).
+Proof.
+  unfold norm_index. rewrite app_length. cbn [List.length].
+  assert (E1 : (Z.of_nat (List.length a) <? 0)%Z = false) by (apply Z.ltb_ge; lia).
+  assert (E2 : (Z.of_nat (List.length a + S (List.length b)) <=? Z.of_nat (List.length a))%Z = false)
+    by (apply Z.leb_gt; lia).
+  rewrite !E1, E2. cbn [orb]. rewrite Nat2Z.id. reflexivity.
+Qed.
+
+Lemma nth_val_mid (a b : list val) (x : val) : nth_val (a ++ x :: b)%list (List.length a) = Some x.
+Proof. induction a as [|y t IH]; [reflexivity|]. exact IH. Qed.
+
+Lemma set_nth_mid (a b : list val) (x v : val) :
+  set_nth (a ++ x :: b)%list (List.length a) v = Some (a ++ v :: b)%list.
+Proof.
+  induction a as [|y t IH]; [reflexivity|].
+  cbn [app List.length set_nth]. rewrite IH. reflexivity.
+Qed.
+
+(** 1-D float arrays *)
+Definition arr (c : list Q) : val := VA (map VQ c).
+
+Lemma add_int_arr (k : Z) (c : list Q) :
+  binop_val Add (VZ k) (arr c) = Some (arr (map (fun x => (inject_Z k + x)%Q) c)).
+Proof.
+  unfold binop_val, arr. cbn [bc_r]. rewrite map_map.
+  rewrite (map_opt_map_some _ _ (fun x => VQ (inject_Z k + x)%Q)); reflexivity.
+Qed.
+
+Lemma add_arr_arr (a b : list Q) :
+  List.length a = List.length b ->
+  binop_val Add (arr a) (arr b) = Some (arr (map (fun p => (fst p + snd p)%Q) (combine a b))).
+Proof.
+  intros H. unfold binop_val, arr. rewrite !map_length, H, Nat.eqb_refl.
+  assert (E : map_opt (arith2 Add) (combine (map VQ a) (map VQ b)) =
+              Some (map VQ (map (fun p => (fst p + snd p)%Q) (combine a b)))).
+  { clear H. revert b. induction a as [|x t IH]; intros [|y u]; try reflexivity.
+    cbn [map combine map_opt]. rewrite IH. reflexivity. }
+  rewrite E. reflexivity.
+Qed.
